@@ -795,6 +795,7 @@ func genC12(d *Draw) Case {
 		opts.SubInLoop = true
 	}
 	opts.ActivityDefault = d.Bool()
+	opts.EmptyBranches = d.Bool()
 	// both programs are generated from the same draws
 	rec := &simrt.RecTape{}
 	*rec = *(d.T.(*simrt.RecTape))
